@@ -245,14 +245,12 @@ def compileExpr : Nat → Expr → C Unit
     compileListElems fuel sp xs
   | .anyobj sp => emit (.cloningPush .emptyAnyObj) sp
   | .obj sp _ fields => do
-    let zs := fields.mapM fun (k, fe) => do pure (k, ← zeroPVal fe.ty)
-    match zs with
-    | none => unsup "object literal field without a zero value"
-    | some zs =>
-      -- the Go code builds a map: later duplicates overwrite earlier ones
-      let dedup := zs.foldl (fun acc (k, v) => acc.filter (·.1 != k) ++ [(k, v)]) []
-      emit (.cloningPush (.obj dedup)) sp
-      compileObjFields fuel sp fields
+    -- placeholders only (null): every field is assigned its initializer by compileObjFields
+    let zs : List (String × PVal) := fields.map fun (k, _) => (k, .null)
+    -- the Go code builds a map: later duplicates overwrite earlier ones
+    let dedup := zs.foldl (fun acc (k, v) => acc.filter (·.1 != k) ++ [(k, v)]) []
+    emit (.cloningPush (.obj dedup)) sp
+    compileObjFields fuel sp fields
   | .lambda sp _ params ret body => do
     let s ← get
     let ident := s!"$lambda_{s.lambdaCount}"
